@@ -15,7 +15,7 @@ RULE = ("request specs: 9 methods x unicode paths over an alphabet with reserved
         "query dicts and form dicts whose keys/values contain & = + % # ? ; space and non-ASCII x header sets (token names in "
         "mixed case, latin-1 values with ': ', blanks, empty) x raw / JSON / form bodies, with and without explicit "
         "Content-Length; built by the real Requester, parsed by the real Requestant + Server.buildEnviron; a second stream "
-        "40% of the histories go through the application entry points instead of the Requester: a real Client on a fake connected socket, first request by Client(..., body|data|fargs) + bare transmit() or by Client.request, later ones by a bare transmit() (resend), client.transmit(**subset) or Client.request(**subset); a few through clienting.backendRequest on a fake connection; where each of method / path / qargs / headers / body|data|fargs is independently given or omitted (incl. empty dict / list / body meant to clear) and sent by Client.service(); all requests of a history are also fed to ONE Requestant and to a real WSGI Server connection (whole, one request per receive, or - half of the cases - cut into 2-4 receives at arbitrary byte positions incl. right after a header line, between CR and LF and inside header names/values, with a parse()/service() between receives; in a quarter of the cases after a hand-written chunked / Content-Length / cookie-bearing first request) and every parse is compared with the parse of the same request alone; each request is followed by 0-3 rebuild() calls on the same Requester (no arguments, or only some of method / path / qargs / headers / body, the rest carried over), every build parsed and compared; a further stream leaves the well-formed domain (path with ? or #, // prefix, control characters, CR/LF in header values) where only "
+        "40% of the histories go through the application entry points instead of the Requester: a real Client on a fake connected socket, first request by Client(..., body|data|fargs) + bare transmit() or by Client.request, later ones by a bare transmit() (resend), client.transmit(**subset), Client.request(**subset) or as the follow-up of a 3xx answer whose Location carries a random path and query args in one of three equivalent encodings; a few through clienting.backendRequest on a fake connection; where each of method / path / qargs / headers / body|data|fargs is independently given or omitted (incl. empty dict / list / body meant to clear) and sent by Client.service(); all requests of a history are also fed to ONE Requestant and to a real WSGI Server connection (whole, one request per receive, or - half of the cases - cut into 2-4 receives at arbitrary byte positions incl. right after a header line, between CR and LF and inside header names/values, with a parse()/service() between receives; in a quarter of the cases after a hand-written chunked / Content-Length / cookie-bearing first request) and every parse is compared with the parse of the same request alone; each request is followed by 0-3 rebuild() calls on the same Requester (no arguments, or only some of method / path / qargs / headers / body, the rest carried over), every build parsed and compared; a further stream leaves the well-formed domain (path with ? or #, // prefix, control characters, CR/LF in header values) where only "
         "model/implementation agreement is compared. Non-trivial: a reserved or non-ASCII character in path, key, value or header value")
 MODELLED = ["urllib.parse.quote/quote_plus/unquote/unquote_plus/urlsplit/parse_qsl and UTF-8 coding (Gallina functions; swept against CPython in C16's and this driver's extra())",
             "json.dumps of the data argument (external: the encoded bytes are part of the request spec)",
@@ -100,6 +100,23 @@ def _rebuild_args(op):
     return kw
 
 
+def _location(op):
+    """the Location a server would send to redirect to path [op.path] with query args [op.qargs], percent-encoded in
+    one of several equivalent ways (quote_plus, quote with %20, sub-delimiters left raw)"""
+    from urllib.parse import quote, quote_plus
+    enc = op.get("enc", "plus")
+    if enc == "plus":
+        f = lambda t: quote_plus(t)
+    elif enc == "pct":
+        f = lambda t: quote(t, safe="")
+    else:                    # characters that need no escaping in a query component left raw
+        f = lambda t: quote_plus(t, safe="!$'()*,/:@")
+    loc = quote(op["path"], safe="/" if enc != "raw" else "/!$'()*,:@")
+    if op["qargs"]:
+        loc += "?" + "&".join(f(k) + "=" + f(v) for k, v in op["qargs"])
+    return loc.encode("ascii")
+
+
 def _client_wires(case):
     """The same history through the public entry points of the application: a Client (fake connected socket);
     first request either Client(..., body/data/fargs) + bare client.transmit() or Client.request(body...);
@@ -126,7 +143,7 @@ def _client_wires(case):
     sock = FakeSock((HOST, PORT), 50000)
     cl.connector.cs = sock
     cl.connector.accepted = True
-    out = []
+    out, pending = [], b""
     ops = [{"bare": True} if first_bare else {"body": b}] + list(case.get("ops", []))
     for i, op in enumerate(ops):
         kw = _rebuild_args(op)
@@ -134,7 +151,9 @@ def _client_wires(case):
             kw = {}
         before = len(sock.sent)
         try:
-            if op.get("bare"):
+            if op.get("redirect"):
+                pass          # already sent: Client.service followed the 3xx answer to the previous request
+            elif op.get("bare"):
                 cl.transmit()
             elif op.get("api") == "transmit" and kw:
                 cl.transmit(**kw)
@@ -144,14 +163,21 @@ def _client_wires(case):
         except Exception as ex:
             out += [type(ex).__name__ + ": " + str(ex)[:100]] * (len(ops) - i)
             break
-        out.append(bytes(sock.sent[before:]))
-        sock.inq.append(b"HTTP/1.1 200 OK\r\nContent-Length: 0\r\n\r\n")
+        out.append(pending if op.get("redirect") else bytes(sock.sent[before:]))
+        nxt = ops[i + 1] if i + 1 < len(ops) else None
+        before = len(sock.sent)
+        if nxt is not None and nxt.get("redirect"):      # the server redirects: the follow-up is the next request
+            sock.inq.append(b"HTTP/1.1 %d Moved\r\nLocation: " % nxt.get("status", 302) + _location(nxt) + b"\r\nContent-Length: 0\r\n\r\n")
+        else:
+            sock.inq.append(b"HTTP/1.1 200 OK\r\nContent-Length: 0\r\n\r\n")
         try:
+            cl.service()
             cl.service()
             cl.responses.clear()
         except Exception as ex:
-            out += ["response: " + type(ex).__name__] * (len(ops) - i - 1)
+            out += ["response: " + type(ex).__name__ + ": " + str(ex)[:80]] * (len(ops) - i - 1)
             break
+        pending = bytes(sock.sent[before:])
     return out
 
 
@@ -724,7 +750,11 @@ def generate(rng, tier):
             ops = []
             for _ in range(rng.choice([1, 2, 3, 4])):
                 k = rng.random()
-                if k < 0.25:
+                if k < 0.2:                                              # the server answers 3xx: follow-up request
+                    t = _spec(rng)
+                    ops.append({"redirect": True, "path": t["path"], "qargs": [kv for kv in t["qargs"] if kv[0]],
+                                "enc": rng.choice(["plus", "pct", "raw"]), "status": rng.choice([301, 302, 303, 307])})
+                elif k < 0.4:
                     ops.append({"bare": True})                           # bare transmit(): resend what is held
                 else:
                     op = _op(rng, independent=True)
@@ -785,6 +815,10 @@ def directed():
         R(method="POST", path="/c", qargs=[["a", "b"]], headers=[["X-A", "1"]], body=["json", {"k": 1}], via="client",
           ops=[{"method": "PUT"}, {"headers": []}, {"body": ["form", [["f", "g h"]]]}, {"qargs": [["x y", "&"]], "headers": [["X-B", "2"]]}]),
         R(path="/c", via="client", ops=[{"method": "DELETE", "path": "/é", "qargs": [["k", "v"]], "headers": [["Accept", "*/*"]], "body": ["raw", b"zz".hex()]}, {}]),
+        # followed redirects: the follow-up request is built from the Location
+        R(path="/old", qargs=[["a", "1"]], via="client", ops=[{"redirect": True, "path": "/new", "qargs": [["q", "a b"], ["full name", "x+y"], ["né", "v&w=%"]], "enc": "plus"}, {}]),
+        R(method="POST", path="/old", headers=[["X-A", "1"]], body=["json", {"k": 1}], via="client", first="transmit",
+          ops=[{"redirect": True, "path": "/n e w/é", "qargs": [["k", "%41+ "]], "enc": "pct", "status": 307}, {"redirect": True, "path": "/third", "qargs": [], "enc": "raw", "status": 301}]),
         # constructor request + bare transmit(), transmit(**subset), backendRequest
         R(method="POST", path="/t", qargs=[["a", "b"]], body=["json", {"k": [1, 2]}], via="client", first="transmit", ops=[{"bare": True}, {"qargs": []}, {"bare": True}]),
         R(method="PUT", path="/t", body=["form", [["f", "g h"]]], via="client", first="transmit", ops=[{"method": "POST", "body": ["raw", b"xyz".hex()], "api": "transmit"}, {"bare": True}]),
